@@ -21,11 +21,14 @@ func init() {
 		ID:    "C13",
 		Level: "exploration",
 		Rule: "case = (file header form, total size, trailing bytes, chip chunking behaviour, max-read setting, plain or under secure messaging) read with NfcSession.ReadFile from the simulated chip (READ BINARY with P1 bit 8 resolved as short-EF reference as ICAO 9303-10 requires); boundary product of sizes {2..7,126..131,254..262,32763..32772,65530..65539} x header forms x behaviours {all requested, caps 1,2,3,7,100,223,231,255,256, random short reads, Le caps answering 6700 / 6Cxx, jmrtd zero-read} x max-read {1..65536 boundary set}, plus random cases; " +
+			"fallback-ladder product: header probe answered with 1..4 bytes x Le caps {100,127..129,191..193,200,254..256} refusing with 6700 / 6Cxx x {first block refused once, single-byte reads then the 3rd / 4th read refused once} x sizes around 128/192/256 x header forms x max-read {128..257,1000,65536} with and without extended length; " +
+			"SELECT EF status sweep: the chip stores the file and answers SELECT EF with each of a representative set of status words (thorough: all 65536), plain and as protected status under secure messaging, with and without another current file: 'not found' only for 6A82 / 6283, data only if the chip completed the selection and then exact; " +
 			"non-trivial = the file exists on the chip; distinct = the case tuple",
 		MinEvaluations: 2000,
 		Assumptions: []string{
 			"the simulated chip follows ICAO 9303-10: READ BINARY with even INS and P1 bit 8 set addresses a short EF identifier; offsets are 15 bits",
 			"an error return is always acceptable; exactness is demanded of successful returns only; (nil,nil) is 'not found'",
+			"the chip 'says the file is not there' with 6A82 (file not found) or 6283 (selected file deactivated) and with no other status word",
 		},
 		Run: runC13,
 	})
@@ -36,6 +39,17 @@ type c13File struct {
 	lenForm int // 0 short, 1 = 81, 2 = 82, 3 = 83 (non-minimal forms included via value)
 	total   int // header + content
 	trail   int // bytes stored after the object
+}
+
+// headerLen returns the header length and content length of the form, ok = representable.
+func (f c13File) headerLen() (hdr, content int, ok bool) {
+	hdr = f.tagLen + 1 + f.lenForm
+	content = f.total - hdr
+	switch {
+	case content < 0, f.lenForm == 0 && content > 0x7f, f.lenForm == 1 && content > 0xff, content > 0xffff:
+		return hdr, content, false
+	}
+	return hdr, content, true
 }
 
 // build returns the stored file and the object (what ReadFile must return).
@@ -139,10 +153,29 @@ type c13Case struct {
 	maxRd  int
 	sm     int // 0 plain, 1 3DES, 2 AES
 	absent int // 0 present, 1 select answers 6A82, 2 select answers 6283
+
+	// chip deviations layered on the behaviour (see c13_ladder.go); all zero = off
+	hdrAns  int    // the header probe (offset 0, Ne <= 4) is answered with at most this many bytes
+	leCap   int    // overrides the behaviour's Le cap ...
+	leCapSW uint16 // ... and the status it refuses with
+	trickle int    // reads that start at an offset in 1..trickle-1 deliver one byte
+	failNth int    // the n-th READ BINARY that would deliver data (1 = header probe) is refused once ...
+	failSW  uint16 // ... with this status
+	// SELECT status sweep (see c13_select.go)
+	selOn bool   // SELECT EF of the target is answered with selSW (protected status under SM)
+	selSW uint16 //
+	prior bool   // a neighbour EF is selected before the target is read
 }
 
 func (cs c13Case) String() string {
-	return fmt.Sprintf("tag%d/len%d/total%d/trail%d beh=%s maxread=%d sm=%d absent=%d", cs.f.tagLen, cs.f.lenForm, cs.f.total, cs.f.trail, c13Behaviours[cs.beh].name, cs.maxRd, cs.sm, cs.absent)
+	s := fmt.Sprintf("tag%d/len%d/total%d/trail%d beh=%s maxread=%d sm=%d absent=%d", cs.f.tagLen, cs.f.lenForm, cs.f.total, cs.f.trail, c13Behaviours[cs.beh].name, cs.maxRd, cs.sm, cs.absent)
+	if cs.hdrAns != 0 || cs.leCap != 0 || cs.trickle != 0 || cs.failNth != 0 {
+		s += fmt.Sprintf(" hdrans=%d lecap=%d/%04x trickle=%d fail=%d/%04x", cs.hdrAns, cs.leCap, cs.leCapSW, cs.trickle, cs.failNth, cs.failSW)
+	}
+	if cs.selOn {
+		s += fmt.Sprintf(" select-sw=%04x prior=%v", cs.selSW, cs.prior)
+	}
+	return s
 }
 
 func c13Run(k *fw.K, cs c13Case) {
@@ -161,6 +194,25 @@ func c13Run(k *fw.K, cs c13Case) {
 	}
 	card.LeCap, card.LeCapSW, card.ZeroReadAbove, card.EOFWarning = b.leCap, b.leCapSW, b.zeroAbove, b.eofWarn
 	card.PageSize = b.page
+	if cs.leCap > 0 {
+		card.LeCap, card.LeCapSW = cs.leCap, cs.leCapSW
+	}
+	deliverable := 0
+	if cs.hdrAns > 0 || cs.trickle > 0 || cs.failNth > 0 {
+		card.ReadPolicy = func(off, ne, n int) (int, uint16) {
+			deliverable++
+			if cs.failNth > 0 && deliverable == cs.failNth {
+				return 0, cs.failSW
+			}
+			if cs.hdrAns > 0 && off == 0 && ne <= 4 {
+				n = min(n, cs.hdrAns)
+			}
+			if cs.trickle > 0 && off > 0 && off < cs.trickle {
+				n = 1
+			}
+			return n, 0
+		}
+	}
 	// neighbours with recognisable content under every short EF identifier
 	for n := 1; n <= 16; n++ {
 		nb := make([]byte, 300)
@@ -185,6 +237,14 @@ func c13Run(k *fw.K, cs c13Case) {
 			return nil
 		}
 	}
+	if cs.selOn {
+		card.SelectEFStatus = func(fid uint16, stored bool) (uint16, bool, bool) {
+			if fid != target {
+				return 0, false, false
+			}
+			return cs.selSW, c13SelectCompletes(cs.selSW), true
+		}
+	}
 	tr := &funcTransceiver{f: card.Transceive}
 	nfc := iso7816.NewNfcSession(tr)
 	if sel, err := nfc.SelectAid(chipsim.LDS1AID); err != nil || !sel {
@@ -200,6 +260,12 @@ func c13Run(k *fw.K, cs c13Case) {
 		nfc.SetSecureMessaging(newLibSM(k, suite, kenc, kmac, make([]byte, suite.BlockSize())))
 	}
 	nfc.SetMaxLe(cs.maxRd)
+	if cs.prior {
+		// history: another elementary file is the current file when the target is read
+		if sel, err := nfc.SelectEF(chipsim.FidDG(1)); err != nil || !sel {
+			fw.LibFail("select-ef-failed", "SelectEF of a stored neighbour file on the conforming simulated chip failed: %v (selected=%v)", err, sel)
+		}
+	}
 	card.ReadBinaries = 0
 	evStart := len(card.Events)
 	data, err := nfc.ReadFile(target)
@@ -217,6 +283,7 @@ func c13Run(k *fw.K, cs c13Case) {
 	if cs.absent == 0 {
 		k.Nontrivial(cs.String())
 	}
+	c13LadderCounters(k, cs, card.Events[evStart:])
 	if card.ReadBinaries > 1+1000+3 {
 		k.Violation("readfile:chunk-limit", fmt.Sprintf("%d READ BINARY commands for one file", card.ReadBinaries), det())
 		return
@@ -224,6 +291,10 @@ func c13Run(k *fw.K, cs c13Case) {
 	k.Max("max_read_binaries_per_file", int64(card.ReadBinaries))
 	if len(card.SFIReads) > 0 {
 		k.Count("reads_resolved_as_short_ef_reference")
+	}
+	if cs.selOn {
+		c13SelectOracle(k, cs, data, err, object, det)
+		return
 	}
 	if err != nil {
 		k.Count("result_error")
@@ -257,11 +328,14 @@ func c13Run(k *fw.K, cs c13Case) {
 			key = "readfile:prefix"
 		case len(data) > len(object):
 			key = "readfile:too-long"
+		default:
+			key += c13RefusedReadSuffix(card.Events[evStart:])
 		}
 		k.Violation(key, fmt.Sprintf("ReadFile returned %d bytes that differ from the stored %d-byte object", len(data), len(object)), det())
 		return
 	}
 	k.Count("result_exact")
+	c13LadderExact(k, cs, card.Events[evStart:])
 	if len(card.SFIReads) > 0 {
 		k.Count("exact_despite_short_ef_reads")
 	}
@@ -324,9 +398,53 @@ func runC13(c *fw.Ctx) {
 		if prng.IntN(15) == 0 {
 			cs.absent = 1 + prng.IntN(2)
 		}
+		// chip deviations on top of the behaviour: short header answer, own Le cap, single-byte
+		// reads near the start, one read refused once
+		if prng.IntN(4) == 0 {
+			cs.hdrAns = 1 + prng.IntN(4)
+		}
+		if prng.IntN(6) == 0 {
+			cs.leCap = c13LadderLeCaps[1+prng.IntN(len(c13LadderLeCaps)-1)]
+			cs.leCapSW = []uint16{0x6700, 0x6C00}[prng.IntN(2)]
+		}
+		if prng.IntN(8) == 0 {
+			cs.trickle = 2 + prng.IntN(6)
+		}
+		if prng.IntN(6) == 0 {
+			cs.failNth = 2 + prng.IntN(4)
+			cs.failSW = c13RefuseOnceSWs[prng.IntN(len(c13RefuseOnceSWs))]
+		}
 		cases = append(cases, cs)
 	}
+	if c.Quick() {
+		cases = append(cases, c13LadderQuick(c.Seed)...)
+	}
+	cases = append(cases, c13SelectCases()...)
 	c.Cases(len(cases), func(i int) string { return "read|" + cases[i].String() }, func(i int, k *fw.K) {
 		c13Run(k, cases[i])
+	})
+	if c.Quick() {
+		return
+	}
+	// thorough: the whole fallback-ladder product and all 65536 SELECT statuses, by index
+	c.Cases(c13LadderN, func(i int) string {
+		cs, _ := c13LadderAt(c.Seed, i)
+		return "ladder|" + cs.String()
+	}, func(i int, k *fw.K) {
+		cs, ok := c13LadderAt(c.Seed, i)
+		if !ok {
+			k.Count("ladder_product_duplicate_combination")
+			k.AddEvals(-1) // nothing was executed
+			return
+		}
+		if _, _, buildable := cs.f.headerLen(); !buildable {
+			k.Count("ladder_product_unbuildable_header")
+			k.AddEvals(-1) // nothing was executed
+			return
+		}
+		c13Run(k, cs)
+	})
+	c.Cases(c13SelectSweepN, func(i int) string { return "select|" + c13SelectSweepAt(i).String() }, func(i int, k *fw.K) {
+		c13Run(k, c13SelectSweepAt(i))
 	})
 }
